@@ -125,3 +125,68 @@ def element_deletions(tree, class_name):
             cand = dict(tree)
             cand[rel] = '<?xml version="1.0" encoding="UTF-8"?>\n' + ET.tostring(root2, encoding="unicode") + "\n"
             yield cand
+
+
+def shape_features(spec):
+    """Static features of a parsed spec tree (reach probes for the spec generator)."""
+    feats = set()
+
+    def walk(body, chunked, in_case, cd):
+        seen_chunked_end = False
+        for ins in body:
+            if seen_chunked_end and ins.tag in ("field", "array", "length"):
+                feats.add("instruction_after_chunked_section" + ("_in_case" if in_case else ""))
+            if ins.tag == "chunked":
+                feats.add("chunked_in_chunked" if chunked else "chunked")
+                if in_case:
+                    feats.add("chunked_in_case_in_chunked_context" if chunked else "chunked_in_case")
+                walk(ins.body, True, in_case, cd)
+                seen_chunked_end = True
+            elif ins.tag == "switch":
+                feats.add("switch_in_chunked" if chunked else "switch")
+                if in_case:
+                    feats.add("nested_switch")
+                for c in ins.cases:
+                    if c.default:
+                        feats.add("default_case")
+                    if c.body is None:
+                        feats.add("empty_case")
+                    else:
+                        walk(c.body.body, chunked, True, c.body)
+            elif ins.tag == "break":
+                feats.add("break_in_case" if in_case else "break")
+            elif ins.tag == "dummy":
+                feats.add("dummy_first" if ins is body[0] and not chunked else "dummy_guarded")
+            elif ins.tag == "array":
+                kind = spec.resolve(ins.type)[0]
+                feats.add(f"array_{'delimited' if ins.delimited else 'plain'}_{'len' if ins.length else 'nolen'}_{kind}")
+                if ins.optional:
+                    feats.add("optional_array")
+                if ins.delimited and not ins.trailing:
+                    feats.add("no_trailing_delimiter")
+            elif ins.tag == "length":
+                if ins.offset:
+                    feats.add("length_offset")
+                if ins.optional:
+                    feats.add("optional_length")
+            elif ins.tag == "field":
+                kind = spec.resolve(ins.type)[0]
+                if ins.value is not None:
+                    feats.add(f"hardcoded_{'named' if ins.name else 'unnamed'}_{kind}")
+                if kind == "struct":
+                    sub = spec.structs[spec.resolve(ins.type)[1]]
+                    if any(i.tag == "chunked" for i in sub.body):
+                        feats.add("struct_with_chunked_in_chunked_parent" if chunked else "struct_with_chunked_in_plain_parent")
+                    elif chunked:
+                        feats.add("plain_struct_in_chunked_parent")
+                if ins.optional:
+                    feats.add(f"optional_{kind}")
+                if ":" in ins.type:
+                    feats.add("underlying_type_override")
+                if kind in ("string",) and ins.length is None and ins is not body[-1]:
+                    feats.add("unbounded_string_mid_body")
+
+    for cd in spec.classes.values():
+        if cd.kind != "case":
+            walk(cd.body, False, False, cd)
+    return feats
